@@ -13,6 +13,18 @@ E2 = "explicit-state search over operation histories of the real objects against
 E3 = "bounded-exhaustive input/configuration enumeration against a reference model (depth-1 model checking)"
 
 CHECKS = {
+    "C19": dict(
+        engine="E2-hist",
+        category="model_checking",
+        technique=E2,
+        text="Explicit-state BFS over all histories to depth 7 (thorough 9) of a reference controller log (depth <= 5/6) observed through the real "
+        "FaultLog: new entry with announcement delivered or lost, solicited reply for any position (incl. null), read-through (limit 64 and 2) by the "
+        "real get_faultlog() on the virtual loop against a scripted controller, read-through with the k-th request failing, read-through during which "
+        "a new entry arrives; invariants in every state (views never raise, newest-first, no entry twice, only reported entries), read-through equality, "
+        "announcement pushes known entries down; plus a 70-entry history for the 64-slot limit.",
+        design_ref="4/C19",
+        note="Dedup on (controller log, FaultLog._map, FaultLog._log keys, _is_getting); timestamps unique and increasing; the dispatcher hands each RP to handle_msg before get_faultlog processes it.",
+    ),
     "C01": dict(
         engine="E3-enum",
         category="exploration",
